@@ -54,6 +54,13 @@ sites = [
   dict(n="maxby_after_vals", pre="", call="sort_by", rest="(`[{\"a\": [1, 2]}, {\"a\": [\"x\", 3]}]`, &{k: a[0]}.* | [0])", kind="type"),
   dict(n="after_ok_slice", pre="", call="abs", rest="(a[0:1][0], `2`)", kind="arity"),
   dict(n="after_ok_slice2", pre="not_null(a[1:], ", call="abs", rest="(`true`))", kind="type"),
+  # blanks between the function name and its "(" (the lexer allows them): the error still points at the "("
+  dict(n="gap_type", pre="", call="abs", gap=" ", rest="(`\"x\"`)", kind="type"),
+  dict(n="gap_arity", pre="", call="length", gap="\n  ", rest="()", kind="arity"),
+  dict(n="gap_unknown", pre="", call="nosuch", gap="  ", rest="(`1`)", kind="unknown"),
+  dict(n="gap_sortby", pre="", call="sort_by", gap="\n\t ", rest="(`[{\"a\": 1}, {\"a\": \"x\"}]`, &a)", kind="type"),
+  dict(n="gap_nested", pre="not_null (", call="abs", gap=" \n", rest="(`true`), `1`)", kind="type"),
+  dict(n="gap_expref_inner", pre="map(&", call="abs", gap=" ", rest="(@), `[\"x\"]`)", kind="type"),
   # a later failure in the same outer call after an earlier argument contained a successful call
   dict(n="after_ok_call", pre="", call="abs", rest="(not_null(length('a'), `1`), `2`)", kind="arity"),
 ]
@@ -71,6 +78,6 @@ slices = [
 out = os.path.join(VERIF, "spec", "gen", "err_templates.ndjson")
 with open(out, "w") as f:
     f.write(json.dumps({"prefixes": [cps(p) for p in prefixes],
-                        "sites": [{"n": s["n"], "pre": cps(s["pre"]), "call": cps(s["call"]), "rest": cps(s["rest"]), "kind": s["kind"]} for s in sites],
+                        "sites": [{"n": s["n"], "pre": cps(s["pre"]), "call": cps(s["call"] + s.get("gap", "")), "rest": cps(s["rest"]), "kind": s["kind"]} for s in sites],
                         "slices": [{"n": s["n"], "pre": cps(s["pre"]), "open": cps(s["open"]), "rest": cps(s["rest"]), "tail": cps(s.get("tail", ""))} for s in slices]}) + "\n")
 print("wrote", out)
